@@ -35,7 +35,8 @@ type Intent struct {
 }
 
 type Step struct {
-	Op      string   `json:"op"` // txset | confirm | cancel | wait | restart
+	Op      string   `json:"op"` // txset | confirm | cancel | wait | restart | probe
+	Cfg     []Pair   `json:"cfg,omitempty"` // probe: a whole configuration, submitted as one intent to an empty datastore
 	ID      string   `json:"id,omitempty"`
 	Dry     bool     `json:"dry,omitempty"`
 	TmoMs   int      `json:"tmo,omitempty"`
@@ -106,6 +107,8 @@ type Event struct {
 	EnvSync bool     `json:"envsync"`
 	// FailKind: kind of the collaborator call that was made to fail ("" if none / not reached)
 	FailKind string `json:"failkind"`
+	Disabled []string `json:"disabled"`
+	Cfg      []Pair   `json:"cfg"`
 	// Since: ms between the return of the last applied TransactionSet and the return of this call (-1: none)
 	Since int  `json:"since"`
 	Post  Post `json:"post"`
@@ -143,6 +146,8 @@ func (r *Runner) emit(e *Event) error {
 	}
 	e.Replace.Upd = nz(e.Replace.Upd)
 	e.Errs = nz(e.Errs)
+	e.Disabled = nz(e.Disabled)
+	e.Cfg = nz(e.Cfg)
 	e.Warns = nz(e.Warns)
 	e.Sets = nz(e.Sets)
 	e.Mods = nz(e.Mods)
@@ -190,6 +195,9 @@ func validationFor(disabled []string) *config.Validation {
 		case "range":
 			v.DisabledValidators.Range = true
 		case "maxelements":
+			// min/max-elements of leaf-lists are governed by the "leafref-min-max-attributes" switch;
+			// the "max-elements" switch is not consulted by the validators (commented out in Validate)
+			v.DisabledValidators.LeafrefMinMaxAttributes = true
 			v.DisabledValidators.MaxElements = true
 		case "sequential":
 			v.DisableConcurrency = true
@@ -239,7 +247,7 @@ func (r *Runner) Run(b *Behaviour) error {
 	if err := r.ds.SyncMirror(ctx); err != nil {
 		return err
 	}
-	ev := &Event{Ev: "init", B: b.ID, I: 0}
+	ev := &Event{Ev: "init", B: b.ID, I: 0, Disabled: b.Disabled}
 	if err := r.post(ctx, ev); err != nil {
 		return err
 	}
@@ -260,6 +268,8 @@ func (r *Runner) Run(b *Behaviour) error {
 			err = r.wait(ctx, &st, ev)
 		case "restart":
 			err = r.restart(ctx, ev)
+		case "probe":
+			err = r.probe(ctx, &st, ev)
 		default:
 			err = fmt.Errorf("unknown op %q", st.Op)
 		}
@@ -578,6 +588,46 @@ func (r *Runner) wait(ctx context.Context, st *Step, ev *Event) error {
 		return r.ds.SyncMirror(ctx)
 	}
 	return nil
+}
+
+// probe submits a whole configuration as ONE intent to a fresh, empty datastore (dry run) and records the verdict.
+func (r *Runner) probe(ctx context.Context, st *Step, ev *Event) error {
+	ev.Cfg = st.Cfg
+	saved := struct {
+		ds    *env.DS
+		plan  *deco.Plan
+		cdeco *deco.Cache
+		sdeco *deco.Schema
+	}{r.ds, r.plan, r.cdeco, r.sdeco}
+	defer func() { r.ds, r.plan, r.cdeco, r.sdeco = saved.ds, saved.plan, saved.cdeco, saved.sdeco }()
+	if err := r.open("", nil); err != nil {
+		return err
+	}
+	pds := r.ds
+	defer pds.Stop(true)
+	cctx, cancel := context.WithTimeout(ctx, 3*time.Second)
+	defer cancel()
+	in := &Intent{O: "probe", P: 1, Kind: "set", Upd: st.Cfg}
+	ti, err := r.buildIntent(cctx, in)
+	if err != nil {
+		ev.Ret, ev.ErrMsg = "error", "conversion: "+err.Error()
+	} else {
+		resp, err := pds.D.TransactionSet(cctx, "probe", []*types.TransactionIntent{ti}, nil, 30*time.Second, true)
+		switch {
+		case err != nil:
+			ev.Ret, ev.ErrMsg = "error", err.Error()
+		case hasErrors(resp):
+			ev.Ret = "invalid"
+			for n, ri := range resp.GetIntents() {
+				ev.ErrMsg += n + ": " + strings.Join(ri.GetErrors(), "; ") + " | "
+			}
+		default:
+			ev.Ret = "ok"
+		}
+	}
+	// the state of the datastore under test is unchanged; report it as observed
+	r.ds, r.plan, r.cdeco, r.sdeco = saved.ds, saved.plan, saved.cdeco, saved.sdeco
+	return r.post(ctx, ev)
 }
 
 // restart replaces the Datastore (and its schema client memoisation) over the same cache instance and device.
